@@ -203,6 +203,11 @@ def harness_build(log):
     return True, ""
 
 
+# properties whose statement says that a search ENDS (no path iff unreachable; limits bound the work; KSP ends):
+# an input on which the real search does not return is a failing input of these
+HANG_VIOLATES = {"C05", "C10", "C13"}
+
+
 def run_cases(prop, tier, seed, outdir, only=None, timeout=3000):
     """runs implementation and model; returns dict"""
     os.makedirs(outdir, exist_ok=True)
@@ -216,6 +221,14 @@ def run_cases(prop, tier, seed, outdir, only=None, timeout=3000):
         cmd += ["--only", str(only)]
     rc, out, dt = sh(cmd, cwd=VERIF, timeout=timeout)
     r = {"cvh_rc": rc, "cvh_out": tail(out, 20), "cvh_s": dt}
+    hang = os.path.join(outdir, "hang.json")
+    if rc == 3 and os.path.exists(hang):
+        # the harness's watchdog: a call of the real search did not return (the input is in the file)
+        try:
+            r["hang"] = json.load(open(hang))
+        except Exception:
+            r["hang"] = {"kind": "a call of the real search did not return", "file": hang}
+        os.remove(hang)
     if rc != 0 or not os.path.exists(os.path.join(outdir, "cases.txt")):
         r["error"] = f"harness run failed rc={rc}: {tail(out, 20)}"
         return r
@@ -327,6 +340,7 @@ def main():
         return path
 
     tie_broken = list(lean["problems"])
+    hang_reported = False
     if not ok_h:
         tie_broken.append("harness does not build against /repo's working tree: " + herr)
     elif not lean["driver_ok"]:
@@ -337,6 +351,17 @@ def main():
         run = run_cases(prop, tier, seed, outdir, only=only, timeout=1200 if tier == "quick" else 3000)
         if "error" in run:
             tie_broken.append("correspondence run failed: " + run["error"])
+        if run.get("hang"):
+            h = run["hang"]
+            tie_broken.append(f"a call of the real search did not return (case #{h.get('index')}, waited {h.get('seconds_waited', 0):.0f} s)")
+            if prop in HANG_VIOLATES:
+                # the property itself says the search ends: the input is a failing input
+                path = write_replay("oracle_search_does-not-return", {
+                    "kind": "implementation violates the property on a concrete input: the search does not return",
+                    "key": "search/does-not-return", **h, "broken_tie": list(tie_broken),
+                })
+                violations.append((path, ""))
+                hang_reported = True
 
     unknown_oracle = []
     mism = []
@@ -367,7 +392,7 @@ def main():
         violations.append((path, ""))
 
     widened = None
-    if tie_broken and not unknown_oracle and ok_h and lean["driver_ok"] and not replay:
+    if tie_broken and not unknown_oracle and ok_h and lean["driver_ok"] and not replay and not hang_reported and not (run and run.get("hang")):
         # a proof / the translator / the correspondence broke but no concrete failing input yet: widen the search
         widened = {"seeds": 0, "cases": 0}
         budget = 240 if tier == "quick" else 1200
@@ -406,11 +431,12 @@ def main():
                 "widened_search": widened,
             })
             violations.append((path, " no-failing-input-found"))
-    elif tie_broken and not unknown_oracle:
+    elif tie_broken and not unknown_oracle and not hang_reported:
         path = write_replay("tie", {
             "kind": "the tie between model and code, or a proof obligation, no longer checks",
             "no_longer_checks": tie_broken, "lean_build_log": lean.get("build_log", ""),
             "first_disagreement": (mism[0] if mism else None),
+            "search_that_did_not_return": (run or {}).get("hang") if run else None,
         })
         violations.append((path, " no-failing-input-found"))
 
